@@ -163,6 +163,7 @@ type ConnOpts struct {
 	StripReqNegotiate  bool // emulate a legacy network client: remove the negotiate key from the request metadata
 	StripRespNegotiate bool // emulate a legacy network server: remove the negotiate key from the response headers
 	InterceptMD map[string][]string // outgoing metadata a client stream interceptor adds to every call made through this connection
+	ServerOutMD map[string][]string // outgoing metadata a server stream interceptor stores in the server context (propagation to downstream calls)
 	Auto     bool // deliver immediately
 	Capacity int  // max undelivered+unreceived messages per direction; 0 = unbounded
 }
@@ -323,6 +324,13 @@ func (c *Conn) NewStream(ctx context.Context, desc *grpc.StreamDesc, method stri
 	}
 	if c.opts.CtxValue != nil {
 		base = context.WithValue(base, InterceptorKey{}, c.opts.CtxValue)
+	}
+	if len(c.opts.ServerOutMD) > 0 {
+		out := metadata.MD{}
+		for k, v := range c.opts.ServerOutMD {
+			out[k] = append([]string(nil), v...)
+		}
+		base = metadata.NewOutgoingContext(base, out)
 	}
 	s.sctx, s.scancel = context.WithCancel(base)
 	if c.opts.ServerAddr != "" {
